@@ -148,6 +148,22 @@ pub fn run(ctx: &mut Ctx) {
             s.nb.insert("a".into(), SItem::Int(77));
             s.nb.insert("c".into(), SItem::List(vec![SItem::Bool(true)]));
         }
+        // one case in 61: a LARGE table of bindings (around powers of two and around every limit
+        // written as a literal or shift expression in pushr's source): defining, redefining and
+        // looking up must not depend on how many names are bound
+        if k % 61 == 30 {
+            let mut c: Vec<usize> = vec![100, 1000, 1023, 1024, 1025, 4095, 4096, 4097, 5000];
+            for v in gen::lits().ints.iter() {
+                if *v >= 64 && *v <= 20000 {
+                    c.push(*v as usize);
+                }
+            }
+            let n = *r.pick(&c);
+            for j in 0..n {
+                s.nb.insert(format!("v{}", j), SItem::Int(j as i32));
+            }
+            ctx.rec.max("max_bindings", n as u64);
+        }
         s.q = k % 9 == 0;
         s.e = vec![SItem::List(prog.clone())];
         let mut st = build_state(&s);
